@@ -51,7 +51,8 @@ def gen_cases(rng, tier, corr, stats):
                         corr.one("KDO %s %s %s %d" % (v, hx(k), hx(cu), n))
                     else:
                         outs = gen.partition(rng, n, 8) if n else [0]
-                        corr.one("KD %s %s %s %d %s" % (v, hx(k), hx(cu), rng.choice([n, 0, 32, 2 ** 29]), ",".join(map(str, outs))))
+                        re_ = " RE:%d" % rng.randrange(1, 1 << 30) if rng.random() < 0.35 else ""      # through *_reinit on an object with a prior history
+                        corr.one("KD %s %s %s %d %s%s" % (v, hx(k), hx(cu), rng.choice([n, 0, 32, 2 ** 29]), ",".join(map(str, outs)), re_))
                     stats["ops"]["KDF"] += 1; stats["outlen"].append(n)
 
 
